@@ -243,7 +243,8 @@ def main():
             if not violation:
                 i, rd, rc = logs_bad[0]
                 txt = open(os.path.join(rd, "log")).read()
-                if "REPLAY-FAILS" not in txt:
+                fatal = any(k in txt for k in ("fatal error:", "goroutine stack exceeds", "WARNING: DATA RACE", "unexpected signal"))
+                if "REPLAY-FAILS" not in txt and not (fatal and "test timed out" not in txt) and not races:
                     inconclusive(pid, f"replay run died rc={rc}", txt)
             print(f"VIOLATION property={pid} replay={os.path.abspath(a.replay)}")
             sys.exit(1)
@@ -260,7 +261,8 @@ def main():
             if fatal and "test timed out" not in txt and os.path.exists(j) and cfg.get("journal_is_violation"):
                 try:
                     d = json.load(open(j))
-                    d["error"] = "process died while running this case:\n" + txt[-3000:]
+                    k = min([txt.find(m) for m in ("fatal error:", "runtime: goroutine stack exceeds", "panic:", "unexpected signal") if m in txt] or [max(0, len(txt) - 3000)])
+                    d["error"] = "process died while running this case:\n" + txt[max(0, k - 200):k + 2500]
                     json.dump(d, open(j, "w"), indent=1)
                 except Exception:
                     pass
